@@ -385,8 +385,8 @@ def run_shard(rec):
     hyp_run(rec, "frames", cases(16, 20), lambda c: check(c, rec), max_examples=150 if quick else 1500)
     many = st.builds(lambda seed, nfr, ns, nf: dict(kind="manyblobs", nfr=nfr, ns=ns, nf=nf, fill=0.25, seed=seed,
                                                     thpos="low", om0=0.0, step=0.25, empty=False, imtype="f32"),
-                     st.integers(0, 2 ** 31 - 1), st.integers(1, 3), st.sampled_from([258, 300, 364]),
-                     st.sampled_from([256, 280, 366]))
+                     st.integers(0, 2 ** 31 - 1), st.integers(1, 3), st.sampled_from([300, 364, 420]),
+                     st.sampled_from([280, 366, 300]))
     hyp_run(rec, "frames_manyblobs", many, lambda c: check(c, rec), max_examples=1 if quick else 6, shrink=False)
     hyp_run(rec, "frames_large", cases(40, 48), lambda c: check(c, rec), max_examples=15 if quick else 200)
 
